@@ -105,8 +105,11 @@ def bounds(tree):
     m = need(re.search(r"if\(\(labelr-labeljr\)>" + _N + r"\|\|\(labeld-labeljd\)>" + _N + r"\)\{", iff), "janetc_if: jump range check")
     out["ifCondJumpMax"], out["ifJumpMax"] = _num(m.group(1)), _num(m.group(2))
     whl = _func(spec, "janetc_while", "specials.c")
-    m = need(re.search(r"if\(\(!infinite&&\(labeld-labelc\)>" + _N + r"\)\|\|\(labeljt-labelwt\)>" + _N + r"\)\{", whl), "janetc_while: jump range check")
-    out["whileCondJumpMax"], out["whileJumpMax"] = _num(m.group(1)), _num(m.group(2))
+    m = need(re.search(r"if\(\(!infinite&&\(labeld-labelc\)>" + _N + r"\)\|\|\((labeljt|labeld)-labelwt\)>" + _N + r"\)\{", whl), "janetc_while: jump range check")
+    out["whileCondJumpMax"], out["whileJumpMax"] = _num(m.group(1)), _num(m.group(3))
+    # every break is patched with `labeld - i`, i >= labelwt, labeld = labeljt + 1: a check of the jump BACK (labeljt - labelwt)
+    # admits a break jump one larger than the literal; a check of labeld - labelwt bounds the break jump by the literal itself
+    out["whileBreakJumpMax"] = _num(m.group(3)) + (1 if m.group(2) == "labeljt" else 0)
     return out
 
 
@@ -153,7 +156,8 @@ def extract(tree):
         "varsetHintsDest": "subopts.flags=JANET_FOPTS_HINT;subopts.hint=dest;JanetSlotret=janetc_value(subopts,argv[1]);janetc_copy(opts.compiler,dest,ret);returnret;" in vs,
         "ifJumpRangeAndPatch": "if((labelr-labeljr)>INT16_MAX||(labeld-labeljd)>0x7FFFFF){" in iff and "c->buffer[labeljr]|=(labelr-labeljr)<<16;if(!tail)c->buffer[labeljd]|=(labeld-labeljd)<<8;" in iff,
         "ifElseJumpCondition": "if(!tail&&!(drop&&janet_checktype(falsebody,JANET_NIL)))janetc_emit(c,JOP_JUMP);" in iff,
-        "whileJumpRangeAndPatch": "if((!infinite&&(labeld-labelc)>INT16_MAX)||(labeljt-labelwt)>0x7FFFFF){" in whl
+        "whileJumpRangeAndPatch": ("if((!infinite&&(labeld-labelc)>INT16_MAX)||(labeljt-labelwt)>0x7FFFFF){" in whl
+                                   or "if((!infinite&&(labeld-labelc)>INT16_MAX)||(labeld-labelwt)>0x7FFFFF){" in whl)
                                   and "if(!infinite)c->buffer[labelc]|=(uint32_t)(labeld-labelc)<<16;c->buffer[labeljt]|=(uint32_t)(labelwt-labeljt)<<8;" in whl,
         "whileBreakPatch": "if(c->buffer[i]==(0x80|JOP_JUMP)){c->buffer[i]=JOP_JUMP|((labeld-i)<<8);}" in whl and "janetc_emit(c,0x80|JOP_JUMP);" in brk,
         "whileClosureRewrite": "if(tempscope.flags&JANET_SCOPE_CLOSURE){" in whl and 'janetc_scope(&tempscope,c,JANET_SCOPE_FUNCTION,"while-iife");' in whl
